@@ -312,6 +312,9 @@ impl Check for C09 {
     fn id(&self) -> &'static str {
         "C09"
     }
+    fn level(&self) -> &'static str {
+        "fault_enumeration"
+    }
     fn runs(&self, _tier: Tier) -> u64 {
         240 + 16 * 256 + 1
     }
